@@ -283,7 +283,11 @@ fn reference(name: &str, args: &[Variable]) -> Option<String> {
         "std.string.to_lowercase" | "std.string.to_uppercase" => {
             let s = st(0)?;
             if !is_ascii_plain(&s) {
-                return None;
+                // beyond ASCII "the uppercase / lowercase equivalent" is Unicode's default case
+                // conversion of the string (full mappings: one letter may become several, a final
+                // sigma differs from a medial one)
+                let r = if name.ends_with("lowercase") { s.to_lowercase() } else { s.to_uppercase() };
+                return Some(format!("{r:?}"));
             }
             let r: String = s
                 .chars()
@@ -338,6 +342,8 @@ fn reference(name: &str, args: &[Variable]) -> Option<String> {
 const EXTRA_ARGS: &[&str] = &[
     "\" a b \"", "\"aXbXc\"", "\"X\"", "\"ab\"", "\"b\"", "\"ABC def\"", "\"\\t x \\n\"", "\"12\"", "\"-7\"", "\"+5\"", "\"1.5\"", "\"1e3\"", "\"nan\"", "\"x1\"",
     "\"9223372036854775808\"", "\"日本語\"", "[104, 105]", "[195, 169]", "[255]", "[195]", "[256, 65]", "[(0 - 1)]", "[240, 159, 152, 128]", "10", "100", "1000",
+    // letters whose case mapping is several characters, or depends on the position in the word
+    "\"straße\"", "\"ﬁn\"", "\"İstanbul\"", "\"ΟΔΥΣΣΕΥΣ\"", "\"ŉ ǰ ΐ\"", "\"Σ ΑΣ σ ς\"", "\"ǅ ǆ Ǆ\"",
     "\"\\u{a0}x\\u{a0}\"", "\"\\u{b}x\\u{b}\"", "\"\\u{2003}x y\\u{3000}\"", "\"\\u{85}\\u{2028}\"", "\"\\u{c} x\\u{1f}\"", "\"\\u{200b}x\\u{feff}\"",
     "(0 - 8)", "8", "1024", "0.5", "2.5", "(-2.5)", "(-0.5)", "3.5", "1.0", "(-1.0)", "2.0", "4503599627370497.0", "1e300", "(-1e300)",
 ];
